@@ -23,7 +23,7 @@ from .common import Outcome, shard_validate, seed
 
 TRACE_CFG = "SPECIFICATION Spec\nINVARIANT Report\nCHECK_DEADLOCK FALSE\n"
 MASS = {"H": 1007940, "C": 12010700, "N": 14006700, "O": 15999400, "F": 18998403, "Zn": 65380000, "Br": 79904000,
-        "Cl": 35453000, "Si": 28085500, "Ge": 72640000, "Zr": 91224000, "Cu": 63546000}
+        "Cl": 35453000, "Si": 28085500, "Ge": 72640000, "Zr": 91224000, "Cu": 63546000, "S": 32065000}
 FRACS = [(1, 1), (1, 2), (1, 3), (2, 3), (1, 4), (0, 1), (3, 4), (9, 10), (1, 5)]
 
 CLAUSE_PROP = {
@@ -268,9 +268,17 @@ def und_view(ev, new, R, ans, Ksp, Krp, residual_tol):
     ev["postu"], ev["wfu"], ev["und"], ev["nblocks"] = Ku, Ku["wf"], und, len(blocks)
 
 
-def run_chain(crystal, rq, replicate=None):
+def run_chain(crystal, rq, replicate=None, onward=False):
     """C08: substitute one element of the pattern in every occurrence, search the original pattern again, substitute
     back.  Every step is an ordinary observed call judged by Trace_Replace; the second starts from the first's result."""
+    if onward:
+        # A -> B -> C with symbols of growing length: the substituted atom becomes "S" first and "Cl" afterwards, so the
+        # second call brings a longer symbol than any the type tables hold after the first
+        sub = [r for r in crystal["rps"] if r["name"] == "subst"][0]["atoms"]
+        subS = [dict(a, el="S") if a["el"] == "Br" else a for a in sub]
+        subCl = [dict(a, el="Cl") if a["el"] == "Br" else a for a in sub]
+        crystal = dict(crystal, rps=crystal["rps"] + [{"name": "substS", "atoms": subS}])
+        rq = dict(rq, rp="substS")
     ev1, obj = run_replace(crystal, rq, want_obj=True)
     out = [(rq, ev1)]
     if obj is None or ev1["exc"] != "none" or ev1["wf"] != "ok":
@@ -291,6 +299,8 @@ def run_chain(crystal, rq, replicate=None):
             return out
     subst = [r for r in crystal["rps"] if r["name"] == "subst"][0]["atoms"]
     rq2 = dict(rq, rp="back", chain=True, sp_atoms=subst, rp_atoms=crystal["pat"], id0=301, fn=1, fd=1, replace_all=False, ignore=False)
+    if onward:
+        rq2.update(rp="onward", sp_atoms=subS, rp_atoms=subCl)
     rq2["variant"] = dict(rq["variant"], hints=None)
     ev2 = run_replace(crystal, rq2, prev=(obj, pre2))
     out.append((rq2, ev2))
@@ -375,8 +385,8 @@ def stub_cfg(c, emit):
 
 
 STUB_TIERS = {
-    "quick": dict(SPNames='{"CH", "NCN", "CCH", "CHN"}', Flavours='{"p", "b", "m"}', MaxCopies=3, Fracs="FracsQ", variants=2, sample=4000),
-    "thorough": dict(SPNames='{"CH", "NCN", "CCH", "CHN"}', Flavours='{"p", "b", "m"}', MaxCopies=3, Fracs="FracsT", variants=3),
+    "quick": dict(SPNames='{"CH", "NCN", "CCH", "CHN"}', Flavours='{"p", "b", "m", "d"}', MaxCopies=3, Fracs="FracsQ", variants=2, sample=5000),
+    "thorough": dict(SPNames='{"CH", "NCN", "CCH", "CHN"}', Flavours='{"p", "b", "m", "d"}', MaxCopies=3, Fracs="FracsT", variants=3),
 }
 
 
@@ -416,10 +426,19 @@ def _exec_chunk(task):
             rq.update(rp="subst", fn=1, fd=1, replace_all=False, ignore=False, chain=True)
             for rq_i, ev in run_chain(crystal, rq, replicate=([2, 1, 1] if ci % 8 == 0 else None)):
                 out.append((ci, rq_i, ev))
+        if ci % 4 == 2 and all(len(a["el"]) == 1 for a in crystal["atoms"]):
+            rq = make_request(crystal, 1, rnd)
+            rq.update(rp="subst", fn=1, fd=1, replace_all=False, ignore=False, chain=True)
+            for rq_i, ev in run_chain(crystal, rq, onward=True):
+                out.append((ci, rq_i, ev))
     return out
 
 
 def attribute(prop, verdict, rq=None):
+    if prop == "C08" and verdict.startswith("blocked:find:") and not verdict.startswith("blocked:find:blocked"):
+        # the search made inside the call gave a wrong answer (judged as a Find answer first): on self-replacement and
+        # substitute-and-back requests the end-to-end statement of C08 fails whichever component is at fault
+        return bool(rq) and (rq.get("rp") in ("same", "subst") or bool(rq.get("chain")))
     if verdict.startswith("blocked"):
         return False
     p = CLAUSE_PROP.get(verdict)
